@@ -517,6 +517,10 @@ class Client(base_client.BaseClient):
             else:
                 self.logger.info('Reconnection successful')
                 self._reconnect_task = None
+                if self._reconnect_abort.is_set():
+                    # the effort was called off while this attempt was in
+                    # progress: the connection that it made is not wanted
+                    self.disconnect()
                 break
             if self.reconnection_attempts and \
                     attempt_count >= self.reconnection_attempts:
